@@ -23,12 +23,14 @@ import (
 	"encoding/base64"
 	"encoding/json"
 	"fmt"
+	"html"
 	"math/rand"
 	"net/http"
 	"net/http/httptest"
 	"net/url"
 	"os"
 	"path/filepath"
+	"regexp"
 	"runtime"
 	"strings"
 	"sync"
@@ -37,7 +39,9 @@ import (
 	"time"
 
 	"github.com/tucats/ego/internal/caches"
+	"github.com/tucats/ego/internal/defs"
 	"github.com/tucats/ego/internal/router"
+	auth "github.com/tucats/ego/internal/server/auth"
 	"github.com/tucats/ego/internal/verifh/vh"
 	"golang.org/x/crypto/bcrypt"
 )
@@ -565,6 +569,476 @@ func TestC23PKCE(t *testing.T) {
 
 	if r.Evaluations == 0 {
 		t.Fatal("observed nothing")
+	}
+
+	if err := r.Write(); err != nil {
+		t.Fatal(err)
+	}
+}
+
+// ---------------------------------------------------------------------------
+// issuance cells: how the code was ISSUED (through the real authorize handlers),
+// and single-use across spellings of one code / refresh token
+// ---------------------------------------------------------------------------
+
+type c23UserStore struct {
+	mu    sync.Mutex
+	users map[string]defs.User
+}
+
+func (s *c23UserStore) ReadUser(_ int, name string, _ bool) (defs.User, error) {
+	s.mu.Lock()
+	defer s.mu.Unlock()
+
+	if u, ok := s.users[name]; ok {
+		return u, nil
+	}
+
+	return defs.User{}, fmt.Errorf("no such user %q", name)
+}
+
+func (s *c23UserStore) WriteUser(_ int, u defs.User) error {
+	s.mu.Lock()
+	defer s.mu.Unlock()
+
+	s.users[u.Name] = u
+
+	return nil
+}
+
+func (s *c23UserStore) DeleteUser(int, string) error        { return nil }
+func (s *c23UserStore) ListUsers(bool) map[string]defs.User { return nil }
+func (s *c23UserStore) Flush() error                        { return nil }
+func (s *c23UserStore) Close() error                        { return nil }
+
+const c23UserPassword = "alice-pw-Zq9"
+
+func c23SetupUser(t *testing.T) {
+	t.Helper()
+
+	h, err := bcrypt.GenerateFromPassword([]byte(c23UserPassword), bcrypt.MinCost)
+	if err != nil {
+		t.Fatal(err)
+	}
+
+	auth.AuthService = &c23UserStore{users: map[string]defs.User{
+		"alice": {Name: "alice", Password: string(h), Permissions: []string{defs.LogonPermission}},
+	}}
+}
+
+var c23HiddenInput = regexp.MustCompile(`<input type="hidden" name="([a-z_]+)"\s+value="([^"]*)">`)
+
+// c23Authorize runs one authorization request through the real handlers: GET
+// /oauth2/authorize (login form + CSRF cookie), then POST of that form with alice's
+// credentials. It returns the code from the redirect, or where the server stopped.
+func c23Authorize(id int, client, challenge, method string, sendMethod bool) (code string, stage string) {
+	q := url.Values{}
+	q.Set("response_type", "code")
+	q.Set("client_id", client)
+	q.Set("redirect_uri", c23Redirect)
+	q.Set("scope", "openid")
+	q.Set("state", "st-"+fmt.Sprint(id))
+
+	if challenge != "" {
+		q.Set("code_challenge", challenge)
+	}
+
+	if sendMethod {
+		q.Set("code_challenge_method", method)
+	}
+
+	greq := httptest.NewRequest(http.MethodGet, "/oauth2/authorize?"+q.Encode(), nil)
+	gw := httptest.NewRecorder()
+
+	if AuthorizeGetHandler(&router.Session{ID: id}, gw, greq); gw.Code != http.StatusOK {
+		return "", fmt.Sprintf("refused-at-form:%d", gw.Code)
+	}
+
+	form := url.Values{}
+	for _, m := range c23HiddenInput.FindAllStringSubmatch(gw.Body.String(), -1) {
+		form.Set(m[1], html.UnescapeString(m[2]))
+	}
+
+	form.Set("username", "alice")
+	form.Set("password", c23UserPassword)
+
+	preq := httptest.NewRequest(http.MethodPost, "/oauth2/authorize", strings.NewReader(form.Encode()))
+	preq.Header.Set("Content-Type", "application/x-www-form-urlencoded")
+
+	for _, ck := range gw.Result().Cookies() {
+		preq.AddCookie(ck)
+	}
+
+	pw := httptest.NewRecorder()
+
+	if AuthorizePostHandler(&router.Session{ID: id}, pw, preq); pw.Code != http.StatusFound {
+		return "", fmt.Sprintf("refused-at-login:%d", pw.Code)
+	}
+
+	loc, err := url.Parse(pw.Header().Get("Location"))
+	if err != nil || loc.Query().Get("code") == "" {
+		return "", "no-code-in-redirect"
+	}
+
+	return loc.Query().Get("code"), "issued"
+}
+
+type c23Issue struct {
+	Kind      string `json:"kind"` // "issuance"
+	Client    string `json:"client"`
+	Challenge string `json:"challenge"` // what the authorization request carried
+	ChKind    string `json:"challenge_kind"`
+	Method    string `json:"method"`
+	MClass    string `json:"method_class"` // S256 omitted plain wrong-case unknown
+	Verifier  string `json:"verifier"`     // V, the verifier the client holds
+	Presented string `json:"presented"`
+	Absent    bool   `json:"absent"`
+	WClass    string `json:"presented_class"`
+}
+
+type c23Spell struct {
+	Kind      string   `json:"kind"` // "spellings"
+	What      string   `json:"what"` // code | refresh
+	Spellings []string `json:"spellings"`
+	Parallel  bool     `json:"parallel"`
+}
+
+func c23SpellingsOf(rng *rand.Rand, v string) []string {
+	names := []string{"exact", "exact", "trailing-blank", "leading-blank", "trailing-newline", "trailing-tab", "literal-%20", "percent-encoded-first-char",
+		"upper", "lower", "trailing-=", "trailing-NUL", "doubled"}
+	rng.Shuffle(len(names), func(i, j int) { names[i], names[j] = names[j], names[i] })
+
+	return names
+}
+
+func c23Spell1(name, v string) string {
+	switch name {
+	case "trailing-blank":
+		return v + " "
+	case "leading-blank":
+		return " " + v
+	case "trailing-newline":
+		return v + "\n"
+	case "trailing-tab":
+		return v + "\t"
+	case "literal-%20":
+		return v + "%20"
+	case "percent-encoded-first-char":
+		return fmt.Sprintf("%%%02X", v[0]) + v[1:]
+	case "upper":
+		return strings.ToUpper(v)
+	case "lower":
+		return strings.ToLower(v)
+	case "trailing-=":
+		return v + "="
+	case "trailing-NUL":
+		return v + "\x00"
+	case "doubled":
+		return v + v
+	}
+
+	return v
+}
+
+func TestC23Issuance(t *testing.T) {
+	r := vh.New("C23", "issuance")
+	r.Rule = "issuance cell = (client public|confidential, code_challenge in {S256(V), V itself, short text}, code_challenge_method in {S256, omitted, plain, s256, S512, none}) sent through the real AuthorizeGetHandler + AuthorizePostHandler, then the issued code is presented to TokenHandler with verifier in {V, absent, empty, another verifier, the challenge itself, V case-flipped}; " +
+		"spelling cell = one issued code (or refresh token) presented under 13 spellings (exact twice, surrounding blanks, newline, tab, literal %20, percent-encoded, upper, lower, '=', NUL, doubled) in PRNG order, sequentially or all at once; " +
+		"distinct = distinct cell; non-trivial = a code was issued with a non-empty challenge and the presented verifier does not match it (issuance), or the spelling list (spellings)"
+	r.Assume("a verifier W 'matches' a stored challenge C when S256(W)=C, or — only if the request did not say S256 — when W=C (RFC 7636 plain, the default when the method is omitted); refusing is always allowed")
+	r.Assume("alice's password is checked by the real validatePassword against a user store installed by the monitor (cost-4 bcrypt)")
+
+	c23Setup(t)
+	c23SetupUser(t)
+
+	serial := 0
+
+	checkIssue := func(c c23Issue) {
+		serial++
+		code, stage := c23Authorize(serial, c.Client, c.Challenge, c.Method, c.MClass != "omitted")
+		r.Count("authorize."+strings.SplitN(stage, ":", 2)[0], 1)
+
+		if code == "" {
+			r.Eval(vh.Hash(c), false)
+			r.Count("authorize.refused.method-"+c.MClass, 1)
+
+			return
+		}
+
+		// what the authorize handler stored for this code (a lookup does not consume it)
+		stored := "not-found"
+
+		if v, found := caches.Find(caches.OAuthCodeCache, code); found {
+			if p, isPending := v.(PendingAuthorization); isPending {
+				switch {
+				case p.CodeChallenge == c.Challenge && p.CodeChallengeMethod == c.Method:
+					stored = "verbatim"
+				case p.CodeChallenge == "" && c.Challenge != "":
+					stored = "challenge-dropped"
+				default:
+					stored = "rewritten"
+				}
+			}
+		}
+
+		r.Count("issuance.stored."+stored, 1)
+
+		form := url.Values{}
+		form.Set("grant_type", "authorization_code")
+		form.Set("client_id", c.Client)
+		form.Set("code", code)
+		form.Set("redirect_uri", c23Redirect)
+
+		if c.Client == "conf" {
+			form.Set("client_secret", c23ConfSecret)
+		}
+
+		if !c.Absent {
+			form.Set("code_verifier", c.Presented)
+		}
+
+		ok, status, _ := c23Post(serial, form)
+
+		w := c.Presented
+		matches := !c.Absent && w != "" && (c23Challenge(w) == c.Challenge || (c.MClass != "S256" && w == c.Challenge))
+		demanded := c.Challenge != "" && !matches
+
+		r.Eval(vh.Hash(c), demanded)
+		r.Count("issuance.cells", 1)
+		r.Count("issuance.method-"+c.MClass, 1)
+
+		switch {
+		case ok && demanded:
+			key := "pkce:issued-method-" + c.MClass + ":tokens-for-" + c.WClass + "-verifier"
+			if stored == "challenge-dropped" {
+				key = "pkce:challenge-dropped-at-issuance:method-" + c.MClass + ":tokens-for-" + c.WClass + "-verifier"
+			}
+
+			r.Violate(vh.Violation{Key: key,
+				Desc: fmt.Sprintf("authorization request carried code_challenge=%q (%s) with code_challenge_method %s; the issued code yielded tokens for code_verifier %q (absent=%v), which does not match that challenge",
+					c.Challenge, c.ChKind, map[bool]string{true: "omitted", false: fmt.Sprintf("%q", c.Method)}[c.MClass == "omitted"], c.Presented, c.Absent),
+				Case: c, Expected: "no tokens", Observed: fmt.Sprintf("status %d with access_token", status)})
+		case ok:
+			r.Count("issuance.tokens_where_the_property_allows", 1)
+		case demanded:
+			r.Count("issuance.refusal_demanded_and_observed", 1)
+		default:
+			r.Count("issuance.refused_although_matching.method-"+c.MClass, 1) // allowed
+		}
+
+		if r.Counters["issuance.cells"]%53 == 1 {
+			r.Sample(map[string]any{"cell": c, "tokens": ok, "status": status})
+		}
+
+		caches.PurgeLocal(caches.OAuthRefreshCache)
+	}
+
+	checkSpell := func(c c23Spell, rng *rand.Rand) {
+		serial++
+
+		var target string
+
+		code, stage := c23Authorize(serial, "pub", c23Challenge(c23Verifier), "S256", true)
+		if code == "" {
+			t.Fatalf("cannot issue a code for the spelling cells: %s", stage)
+		}
+
+		base := url.Values{}
+		base.Set("client_id", "pub")
+
+		field := "code"
+
+		if c.What == "code" {
+			target = code
+			base.Set("grant_type", "authorization_code")
+			base.Set("redirect_uri", c23Redirect)
+			base.Set("code_verifier", c23Verifier)
+		} else {
+			f := url.Values{}
+			for k, v := range base {
+				f[k] = v
+			}
+
+			f.Set("grant_type", "authorization_code")
+			f.Set("redirect_uri", c23Redirect)
+			f.Set("code_verifier", c23Verifier)
+			f.Set("code", code)
+
+			ok, _, resp := c23Post(serial, f)
+			if !ok || resp.RefreshToken == "" {
+				t.Fatalf("cannot obtain a refresh token for the spelling cells")
+			}
+
+			target = resp.RefreshToken
+			field = "refresh_token"
+			base.Set("grant_type", "refresh_token")
+		}
+
+		forms := make([]url.Values, len(c.Spellings))
+		for i, name := range c.Spellings {
+			f := url.Values{}
+			for k, v := range base {
+				f[k] = v
+			}
+
+			f.Set(field, c23Spell1(name, target))
+			forms[i] = f
+		}
+
+		successes := 0
+		which := []string{}
+
+		if c.Parallel {
+			var (
+				ready, done sync.WaitGroup
+				start       = make(chan struct{})
+				recs        = make([]c23Rec, len(forms))
+			)
+
+			ready.Add(len(forms))
+			done.Add(len(forms))
+			c23StartPool()
+
+			for g := range forms {
+				c23Jobs[g] <- c23Job{form: forms[g], id: serial*100 + g, start: start, ready: &ready, done: &done, rec: &recs[g]}
+			}
+
+			ready.Wait()
+			close(start)
+			done.Wait()
+
+			for g, rc := range recs {
+				if rc.ok {
+					successes++
+					which = append(which, c.Spellings[g])
+				}
+			}
+		} else {
+			for g, f := range forms {
+				if ok, _, _ := c23Post(serial*100+g, f); ok {
+					successes++
+					which = append(which, c.Spellings[g])
+				}
+			}
+		}
+
+		r.Eval(vh.Hash(c), true)
+		r.Count("spellings.cells."+c.What, 1)
+		r.Count("spellings.presentations", int64(len(forms)))
+		r.Count("spellings.responses_with_tokens", int64(successes))
+
+		for _, w := range which {
+			r.Count("spellings.tokens_for."+w, 1)
+		}
+
+		if successes > 1 {
+			r.Violate(vh.Violation{Key: "single-use:spellings:" + c.What,
+				Desc: fmt.Sprintf("one issued %s yielded tokens %d times across its spellings: %v (parallel=%v)", c.What, successes, which, c.Parallel), Case: c,
+				Expected: "at most 1 response with tokens over all spellings", Observed: fmt.Sprintf("%d", successes)})
+		}
+
+		caches.PurgeLocal(caches.OAuthRefreshCache)
+		caches.PurgeLocal(caches.OAuthCodeCache)
+		_ = caches.SetExpiration(caches.OAuthCodeCache, "300s")
+		_ = caches.SetExpiration(caches.OAuthRefreshCache, "3600s")
+	}
+
+	if c := vh.ReplayCase(); c != nil {
+		var kind struct {
+			Kind string `json:"kind"`
+		}
+
+		_ = json.Unmarshal(c, &kind)
+
+		switch kind.Kind {
+		case "issuance":
+			var cell c23Issue
+
+			_ = json.Unmarshal(c, &cell)
+			checkIssue(cell)
+			r.Distinct = 2
+		case "spellings":
+			var cell c23Spell
+
+			_ = json.Unmarshal(c, &cell)
+
+			for i := 0; i < 50; i++ {
+				checkSpell(cell, nil)
+			}
+
+			r.Distinct = 2
+		default:
+			r.Note("replay case is not an issuance or spelling cell; this part ran nothing")
+		}
+
+		_ = r.Write()
+
+		return
+	}
+
+	rng := vh.Rand("c23-issuance")
+	methods := []struct{ m, class string }{{"S256", "S256"}, {"", "omitted"}, {"plain", "plain"}, {"s256", "wrong-case"}, {"S512", "unknown"}, {"none", "unknown"}}
+	reps := vh.N(1, 10)
+
+	for rep := 0; rep < reps; rep++ {
+		for _, client := range []string{"pub", "conf"} {
+			for _, chKind := range []string{"S256-of-verifier", "verifier-itself", "short-text", "none"} {
+				for _, m := range methods {
+					v := c23RandVerifier(rng, 43+rng.Intn(86), c23Unreserved)
+					other := c23RandVerifier(rng, len(v), c23Unreserved)
+
+					challenge := ""
+
+					switch chKind {
+					case "S256-of-verifier":
+						challenge = c23Challenge(v)
+					case "verifier-itself":
+						challenge = v
+					case "short-text":
+						challenge = "abc"
+					}
+
+					flip := strings.ToUpper(v[:1]) + v[1:]
+					if flip == v {
+						flip = strings.ToLower(v[:1]) + v[1:]
+					}
+
+					for _, p := range []c23Issue{
+						{Presented: v, WClass: "exact"}, {Absent: true, WClass: "absent"}, {Presented: "", WClass: "empty"}, {Presented: other, WClass: "other"},
+						{Presented: challenge, WClass: "challenge-itself"}, {Presented: flip, WClass: "case-flipped"},
+					} {
+						if flip == v && p.WClass == "case-flipped" {
+							continue
+						}
+
+						if chKind == "none" && p.WClass == "challenge-itself" {
+							continue
+						}
+
+						p.Kind, p.Client, p.Challenge, p.ChKind, p.Method, p.MClass, p.Verifier = "issuance", client, challenge, chKind, m.m, m.class, v
+						checkIssue(p)
+					}
+				}
+			}
+		}
+	}
+
+	nspell := vh.N(60, 2000)
+	for i := 0; i < nspell; i++ {
+		what := []string{"code", "refresh"}[i%2]
+		checkSpell(c23Spell{Kind: "spellings", What: what, Spellings: c23SpellingsOf(rng, ""), Parallel: i%4 >= 2}, rng)
+	}
+
+	if r.Counters["issuance.tokens_where_the_property_allows"] == 0 {
+		r.Inconcl("no issued code ever yielded tokens for its matching verifier: refusals observed prove nothing")
+	}
+
+	if r.Counters["spellings.responses_with_tokens"] == 0 {
+		r.Inconcl("no spelling of any code or refresh token ever yielded tokens")
+	}
+
+	if r.Counters["authorize.issued"] == 0 {
+		t.Fatal("observed nothing: the authorize handlers never issued a code")
 	}
 
 	if err := r.Write(); err != nil {
